@@ -161,22 +161,32 @@ func init() {
 		}
 		return iface{}
 	})
-	// timers / histograms / meters: no-op shells (their internals use tickers, samples, rand)
-	reg("github.com/Dieterbe/go-metrics.NewMeter", func(fr *frame, args []value) value {
-		return iface{t: pkgType("github.com/Dieterbe/go-metrics", "NilMeter"), v: structure{}}
-	})
-	reg("github.com/Dieterbe/go-metrics.NewHistogram", func(fr *frame, args []value) value {
-		return iface{t: pkgType("github.com/Dieterbe/go-metrics", "NilHistogram"), v: structure{}}
-	})
-	reg("github.com/Dieterbe/go-metrics.NewWindowSample", func(fr *frame, args []value) value {
-		return iface{t: pkgType("github.com/Dieterbe/go-metrics", "NilSample"), v: structure{}}
-	})
-	reg("github.com/Dieterbe/go-metrics.NewCustomTimer", func(fr *frame, args []value) value {
-		return iface{t: pkgType("github.com/Dieterbe/go-metrics", "NilTimer"), v: structure{}}
-	})
-	reg("github.com/Dieterbe/go-metrics.NewTimer", func(fr *frame, args []value) value {
-		return iface{t: pkgType("github.com/Dieterbe/go-metrics", "NilTimer"), v: structure{}}
-	})
+	// timers / histograms / meters: shells without internals (their internals use tickers, samples, rand);
+	// Timer.Time(f) still calls f.
+	nop := func(fr *frame, args []value) value { return nil }
+	zeroInt := func(fr *frame, args []value) value { return ConstBV(64, 0) }
+	mkShell := func(kind string) value {
+		h := &hostObj{name: "metrics." + kind, methods: map[string]*hostFunc{}}
+		for _, m := range []string{"Update", "UpdateSince", "Mark", "Clear", "Stop"} {
+			h.methods[m] = &hostFunc{name: m, f: nop}
+		}
+		for _, m := range []string{"Count", "Max", "Min", "Sum"} {
+			h.methods[m] = &hostFunc{name: m, f: zeroInt}
+		}
+		h.methods["Time"] = &hostFunc{name: "Time", f: func(fr *frame, args []value) value {
+			callValue(fr, 0, args[1], nil)
+			return nil
+		}}
+		h.methods["Snapshot"] = &hostFunc{name: "Snapshot", f: func(fr *frame, args []value) value {
+			return iface{t: pkgType("github.com/Dieterbe/go-metrics", "Nil"+kind), v: h}
+		}}
+		return iface{t: pkgType("github.com/Dieterbe/go-metrics", "Nil"+kind), v: h}
+	}
+	reg("github.com/Dieterbe/go-metrics.NewMeter", func(fr *frame, args []value) value { return mkShell("Meter") })
+	reg("github.com/Dieterbe/go-metrics.NewHistogram", func(fr *frame, args []value) value { return mkShell("Histogram") })
+	reg("github.com/Dieterbe/go-metrics.NewWindowSample", func(fr *frame, args []value) value { return mkShell("Sample") })
+	reg("github.com/Dieterbe/go-metrics.NewCustomTimer", func(fr *frame, args []value) value { return mkShell("Timer") })
+	reg("github.com/Dieterbe/go-metrics.NewTimer", func(fr *frame, args []value) value { return mkShell("Timer") })
 
 	// ---- net: TCP endpoints are down unless the harness brings one up
 	reg("net.ResolveTCPAddr", func(fr *frame, args []value) value {
